@@ -40,6 +40,8 @@ Z512 = ksrxml.mk_key(P.rsa(1024, 65537, 5), alg=10, ttl=3600)
 ZEC = ksrxml.mk_key(P.ec(256, 5), alg=13, ttl=3600)
 P.save()
 K["ksk_rc"] = ksrxml.mk_key(P.ec_revoke_carry(13), alg=13, flags=257, ident="Krc")     # setting REVOKE carries: revoked tag = tag + 129
+K["ksk_tc"] = ksrxml.mk_key(P.ec_tag_carry(13, 257), alg=13, flags=257, ident="Ktc")     # the key tag sum carries a second time (RFC 4034 App. B discards that carry)
+K["ksk_tc385"] = ksrxml.mk_key(P.ec_tag_carry(13, 385), alg=13, flags=257, ident="Ktc385")   # ... in its revoked form
 P.save()
 MODS = [[{"id": 0, "objs": sum((S.pair(k["id"], k) for k in K.values()), [])}]]
 KSKS = {n: ceremony.ksk_def(k) for n, k in K.items()}
@@ -159,6 +161,9 @@ for t_ in (0, 1, 2**31 - 1):
 for odd_ in ("\u2028", "\u2029", "\u0085", "\u00e9\u4e2d", " ", "\u00a0", "\u2028\u2029x", "x ", " x", " x "):
     run("odd-identifier-characters", {1: {"publish": ["ksk_a", "ksk_b"], "sign": ["ksk_a"], "revoke": []}, 2: {"publish": ["ksk_b"], "sign": ["ksk_a", "ksk_b"], "revoke": ["ksk_a"]}},
         [[Z[0], Z[1]], [Z[1]]], odd=odd_, desc={"identifier_contains": ascii(odd_)})
+# KSKs whose key tag computation carries out of 16 bits twice: published, signing, revoked - the tag in the SKR is the RFC 4034 one (0..65535)
+run("key-tag-double-carry", {1: {"publish": ["ksk_tc", "ksk_ec"], "sign": ["ksk_tc"], "revoke": []}, 2: {"publish": ["ksk_ec"], "sign": ["ksk_tc", "ksk_ec"], "revoke": ["ksk_tc"]}}, [[ZEC], [ZEC]])
+run("key-tag-double-carry", {1: {"publish": ["ksk_tc385", "ksk_ec"], "sign": ["ksk_ec"], "revoke": []}, 2: {"publish": ["ksk_ec"], "sign": ["ksk_tc385", "ksk_ec"], "revoke": ["ksk_tc385"]}}, [[ZEC], [ZEC]])
 # schema missing a slot
 run("schema-missing-slot", {1: {"publish": ["ksk_a"], "sign": ["ksk_a"], "revoke": []}}, [[Z[0]], [Z[0]]])
 
